@@ -6,6 +6,7 @@ require (
 	github.com/anishathalye/porcupine v1.3.0
 	github.com/kubewharf/kubebrain v0.0.0
 	github.com/kubewharf/kubebrain-client v0.2.1
+	github.com/pingcap/kvproto v0.0.0-20220106070556-3fa8fa04f898
 	github.com/tikv/client-go/v2 v2.0.1
 	go.etcd.io/etcd/api/v3 v3.5.2
 	google.golang.org/grpc v1.43.0
@@ -47,7 +48,6 @@ require (
 	github.com/pingcap/errors v0.11.5-0.20211224045212-9687c2b0f87c // indirect
 	github.com/pingcap/failpoint v0.0.0-20210918120811-547c13e3eb00 // indirect
 	github.com/pingcap/goleveldb v0.0.0-20191226122134-f82aafb29989 // indirect
-	github.com/pingcap/kvproto v0.0.0-20220106070556-3fa8fa04f898 // indirect
 	github.com/pingcap/log v0.0.0-20211215031037-e024ba4eb0ee // indirect
 	github.com/pkg/errors v0.9.1 // indirect
 	github.com/prometheus/client_golang v1.12.1 // indirect
